@@ -385,6 +385,15 @@ func (f *Frame) enterCutLoop(li *loopInfo, live []inEdge) (*State, error) {
 		}
 		st.pc = B.And(st.pc, g)
 	}
+	if li.spec != nil {
+		for _, l := range li.spec.Lets {
+			ctx := f.newCtx(st, f.entry)
+			ctx.at = b
+			if cv := ctx.evalLet(l); cv.V != nil {
+				f.names[l.Name] = cv
+			}
+		}
+	}
 	if li.spec != nil && li.spec.Decreases != nil {
 		ctx := f.newCtx(st, f.entry)
 		ctx.at = b
